@@ -155,6 +155,17 @@ int LLVMFuzzerTestOneInput(const uint8_t *data, size_t size)
             slen += snprintf(stream + slen, 64, LONGS[op % 4], id, ser);
             for (k = 0; k < fill && slen + 8 < sizeof(stream); k++)
                 stream[slen++] = 'A' + (char)(k % 23);
+        } else if (op >= 225 && i < size) {
+            /* one over-long no-op line: head, a long run of blanks, and a tail that would be a line of its own */
+            static const char *TAILS[] = {"%d D", "%d H", "%d T", "%d P :+x! a b", "%d C 9.9.9.9 9 127.0.0.1 6667"};
+            int id = data[i++] % 4 + 1;
+            size_t fill = 3000 + ((i < size) ? data[i++] : 0) * 70, k;
+            if (slen + fill + 3100 >= sizeof(stream))
+                break;
+            slen += snprintf(stream + slen, 64, "%s", (op & 1) ? "-1 E " : "-1 M ");
+            for (k = 0; k < fill; k++)
+                stream[slen++] = (k % 97 == 96) ? '\t' : ' ';
+            slen += snprintf(stream + slen, 64, TAILS[op % 5], id);
         } else if (op < 200) {
             const char *t = TEMPLATES[op % NTEMPL];
             int id = (i < size) ? data[i++] % 4 + 1 : 1;
